@@ -581,6 +581,11 @@ class Tr:
             o, b = m.groups(); b = int(b); ty = IntTy(b)
             if o == "fshl": return r(f"(({ty.c()})(({a[2]} % {b}) ? (({a[0]} << ({a[2]} % {b})) | ({a[1]} >> ({b} - ({a[2]} % {b})))) : {a[0]}))")
             return r(f"(({ty.c()})(({a[2]} % {b}) ? (({a[1]} >> ({a[2]} % {b})) | ({a[0]} << ({b} - ({a[2]} % {b})))) : {a[1]}))")
+        m = re.match(r"llvm\.(usub|uadd)\.sat\.i(\d+)", n)
+        if m:
+            o, b = m.groups(); ty = IntTy(int(b)); c = ty.c()
+            if o == "usub": return r(f"(({c})(({c}){a[0]} > ({c}){a[1]} ? ({c}){a[0]} - ({c}){a[1]} : 0))")
+            return r(f"(({c})(({c})(({c}){a[0]} + ({c}){a[1]}) < ({c}){a[0]} ? ({c})-1 : ({c})(({c}){a[0]} + ({c}){a[1]})))")
         m = re.match(r"llvm\.abs\.i(\d+)", n)
         if m:
             ty = IntTy(int(m.group(1))); return r(f"(({ty.c()})((({ty.cs()}){a[0]} < 0) ? -({ty.cs()}){a[0]} : ({ty.cs()}){a[0]}))")
@@ -588,6 +593,12 @@ class Tr:
             raise Err(f"intrinsic {n}")
         abort_chk = (f"  if (verif_aborted) {{ {on_abort} }}" if on_abort else
                      f"  if (verif_aborted) return{'' if isinstance(fn.ret, VoidTy) else ' ' + s.zero(fn.ret)};")
+        for rx, cn in s.opts.get("stub_funcs", {}).items():
+            if re.search(rx, n):
+                s.opts.setdefault("stubbed", set()).add(n)
+                if dst: setv(dst, rty, f"{cn}()")
+                else: body.append(f"  {cn}();")
+                body.append(abort_chk); return
         hook = s.opts.get("extern_map", {}).get(n)
         if hook:
             r(hook.format(*a)) if "{" in hook else r(f"{hook}({', '.join(a)})")
@@ -698,6 +709,7 @@ def emit(mod, opts):
     while todo:
         n = todo.pop()
         if n in seen: continue
+        if any(re.search(rx, n) for rx in opts.get("stub_funcs", {})): continue
         seen.add(n)
         for lbl, lines in mod.funcs[n].blocks:
             for ln in lines:
@@ -718,6 +730,8 @@ def emit(mod, opts):
                 for o in ("add", "sub", "mul"):
                     t = it.cs() if sg == "s" else it.c()
                     out.append(f"static inline {k} verif_{sg}{o}_ov{b}({it.c()} a, {it.c()} b){{ {k} r; {t} x; r.f1 = __builtin_{o}_overflow(({t})a, ({t})b, &x); r.f0 = ({it.c()})x; return r; }}")
+    for cn_ in sorted(set(opts.get("stub_funcs", {}).values())):
+        out.append(f"void {cn_}(void);")
     for n, (rty, atys) in opts.get("externs", {}).items():
         out.append(f"{rty.c()} {cname(n)}({', '.join(t.c() for t in atys) or 'void'});")
     for g in sorted(opts.get("globals_used", [])):
@@ -762,13 +776,16 @@ def emit(mod, opts):
 def translate(ll_text, extern_map=None):
     mod = parse_module(ll_text)
     em = dict(DEFAULT_EXTERN_MAP)
-    if extern_map: em.update(extern_map)
-    opts = {"extern_map": em}
+    stub = {}
+    if extern_map:
+        stub = extern_map.get("__stub_funcs__", {})
+        em.update({k: v for k, v in extern_map.items() if k != "__stub_funcs__"})
+    opts = {"extern_map": em, "stub_funcs": stub}
     n_instr = sum(len(lines) for fn in mod.funcs.values() for _, lines in fn.blocks)
     c, h = emit(mod, opts)
     info = {"functions": [cname(n) for n in mod.funcs], "ir_instructions": n_instr,
             "externs": sorted(opts.get("externs", {})), "undef_uses": len(opts.get("undef_uses", [])),
-            "opaque_globals": opts.get("opaque_globals", []), "indirect_calls": opts.get("indirect", 0)}
+            "opaque_globals": opts.get("opaque_globals", []), "indirect_calls": opts.get("indirect", 0), "stubbed": sorted(opts.get("stubbed", []))}
     return c, h, info
 
 if __name__ == "__main__":
